@@ -1,6 +1,6 @@
 (* C19 — property theorems only: each closed by [exact] and followed by Print Assumptions. *)
 From Coq Require Import List Arith NArith ZArith.
-From AV Require Import Base.Bytes Model.C19_Bits Proofs.C19_Chunks Proofs.C19_Masks Proofs.C19_LowBit Proofs.C19_IndexIter.
+From AV Require Import Base.Bytes Model.C19_Bits Proofs.C19_Chunks Proofs.C19_Masks Proofs.C19_LowBit Proofs.C19_IndexIter Proofs.C19_Remainder.
 Local Open Scope N_scope.
 
 (* Chunk iteration: bit j of the n-th u64 yielded by BitChunks::iter is exactly bit 64n+j of the
@@ -51,3 +51,12 @@ Theorem index_iter_yields_set_positions : forall ws c, Forall (fun w => w < 2^64
   index_iter_words ws c = map (fun i => (c + Z.of_nat i)%Z) (positions (words_bits ws)).
 Proof. exact index_iter_words_spec. Qed.
 Print Assumptions index_iter_yields_set_positions.
+
+(* BitChunks::remainder_bits (the byte-by-byte loop): bit j of the remainder word is bit 64*(len/64)+j of
+   the addressed range for j < len mod 64 and zero above — for every buffer, offset and length. *)
+Theorem remainder_spec : forall (bs : list N) (off len j : nat),
+  wf_bytes bs -> ((off + len + 7) / 8 <= length bs)%nat ->
+  N.testbit (remainder_bits (bitchunks_new bs off len)) (N.of_nat j)
+  = if (j <? len mod 64)%nat then nth (64 * (len / 64) + j)%nat (bits_range bs off len) false else false.
+Proof. exact remainder_bits_spec. Qed.
+Print Assumptions remainder_spec.
